@@ -53,8 +53,29 @@ def run(ctx, rep):
             rep.undecided("M2", f, "stores", "no coefficient stores found")
     # key's second component enumerates outcomes in circuit order
     f = ix.func(T + "standard_qst.StandardQst._set_coeffs")
-    ok = any(isinstance(n, ast.For) and unparse(n.iter) == "enumerate(povm.vecs)" and unparse(n.target) == "(element_index, vec)" for n in own_nodes(f.node))
-    rep.check(ok, "M2", f, "outcome enumeration (Qst)", "outcomes in the POVM's own order", "rows are not enumerated over enumerate(povm.vecs)", node=f.node)
+    # the second key component counts the outcomes of the schedule's POVM in the POVM's own order: some loop
+    # `for <k>, <v> in enumerate(<povm>.vecs)` encloses the coefficient stores, whose keys end in <k>
+    from ..index import parents as _parents
+    stores = [n for n in own_nodes(f.node) if isinstance(n, ast.Assign) and isinstance(n.targets[0], ast.Subscript) and unparse(n.targets[0].value).endswith("coeffs_1st")]
+    ok, seen_loop = bool(stores), False
+    for st_ in stores:
+        lp_ = next((p_ for p_ in _parents(st_) if isinstance(p_, ast.For) and isinstance(p_.iter, ast.Call) and dotted(p_.iter.func) == "enumerate"
+                    and p_.iter.args and unparse(p_.iter.args[0]).endswith(".vecs") and isinstance(p_.target, ast.Tuple) and len(p_.target.elts) == 2
+                    and isinstance(p_.target.elts[0], ast.Name)), None)
+        if lp_ is None:
+            ok = False
+            continue
+        seen_loop = True
+        from ..astutil import deep_inline
+        key = deep_inline(f, st_.targets[0].slice)
+        k_ = lp_.target.elts[0].id
+        if not (isinstance(key, ast.Tuple) and len(key.elts) == 2 and unparse(key.elts[1]) == k_):
+            ok = False
+    if stores and not seen_loop:
+        rep.undecided("M2", f, "outcome enumeration (Qst)", "no loop `for k, vec in enumerate(<povm>.vecs)` around the coefficient stores")
+    else:
+        rep.check(ok, "M2", f, "outcome enumeration (Qst)", "outcomes in the POVM's own order",
+                  "the second key component of a coefficient store is not the counter of enumerate(<povm>.vecs)", node=f.node)
     # ---- M3
     check_schedule_reads(ctx, rep)
     # ---- M4 / M5
